@@ -20,7 +20,9 @@ extern _Bool g_noabort;
 /* ---- models of library types (M-lock, M-atomic, M-vec, M-map; DESIGN 3.1) ---- */
 struct M_lock { char _unused; };                     /* sequential semantics: locks are no-ops */
 struct M_vec_voidp { unsigned long len; void **elem; unsigned long cap; };   /* std::vector<void*> as a sequence view: elem[0..len), capacity cap */
+struct M_vec_timing { int _opaque; };                /* std::vector<rlbox_transition_timing>: push_back is the recording stub vstd_timing_push */
 struct M_map_str_voidp { int _opaque; };             /* std::map<std::string, void*>: only through map_* stubs */
+static inline void vstd_opaque_map_clear(struct M_map_str_voidp *m) { m->_opaque = 0; }
 
 int vstd_uncaught_exceptions(void);
 /* M-mem: operator new / make_unique: a fresh, zero-initialised heap object of n*sz bytes (never null: new throws instead).
